@@ -1,8 +1,8 @@
 SPECIFICATION Spec
 CONSTANTS
-  Keys = {"k1","k2","k3","k4"}
+  Keys = {"k1","k2","k3"}
   Vals = {"v1","v2"}
-  Cap = 1
+  Cap = 2
   ClearAsInCode = FALSE
 INVARIANT ListOK Refines CapacityInv CallbackExactlyOnce NeverCallbackForRetrievable NoLostNodes NoSpuriousRefusal
 CHECK_DEADLOCK FALSE
